@@ -166,6 +166,10 @@ class Gen:
             return m >> 1
         if r < 0.6:
             return self.rng.randint(0, 255) & m
+        if r < 0.72 and bits >= 16:
+            # zero low-order bytes / zero high-order bytes (byte-order and zero-stripping mistakes)
+            j = 8 * self.rng.randrange(1, bits // 8)
+            return (self.rng.getrandbits(bits) >> j << j) & m if self.rng.random() < 0.6 else (1 << j) & m
         return self.rng.getrandbits(bits)
 
     def bits(self, n):
@@ -348,6 +352,15 @@ class Gen:
                     ops.append(['sets', i, ['s'] + vals])
                     cur = cur[:1 + i] + vals + cur[1 + i + kk:]
                 continue
+            if k in ('list', 'vec', 'cont') and len(cur) - 1 >= 1 and r.random() < 0.1:
+                # an already hashed (tree-backed) sub-value is stored
+                i = r.randrange(len(cur) - 1)
+                et = t[1] if k != 'cont' else t[1 + i]
+                if not is_basic(et) and kind(et) in ('vec', 'list', 'cont', 'union', 'bv', 'bl'):
+                    x = self.val(et, 6)
+                    ops.append(['seth', i, x])
+                    cur = cur[:1 + i] + [x] + cur[2 + i:]
+                    continue
             if k == 'cont' and r.random() < 0.3:
                 same = [(i, j) for i in range(len(t) - 1) for j in range(len(t) - 1)
                         if i != j and show(t[1 + i]) == show(t[1 + j]) and not is_basic(t[1 + i])]
